@@ -224,6 +224,7 @@ pub fn check_fp(c: &FpCase, st: &mut Stats) -> Result<(), String> {
 
 pub fn run(ctx: &Ctx) -> RunResult {
     let mut rr = RunResult::new(RULE);
+    rr.level = "fault_enumeration".into();
     rr.assumptions = vec![
         "'accepted as carrying a valid FINGERPRINT' = a decode returns a FINGERPRINT attribute and (validated decode succeeded or Fingerprint::validate over get_input_text is true)".into(),
         "CRC-32 detects all single-bit and single-byte (burst <= 8 bit) errors, so no accidental collision is possible in this fault class".into(),
